@@ -58,10 +58,15 @@ Inv_Fxp ==
 \* assertion methods of fixed-point values: accepted exactly when the relation holds on the representations
 AssertRel(nm, a, b) == CASE nm = "assert_lt" -> a < b [] nm = "assert_le" -> a <= b [] nm = "assert_gt" -> a > b
                          [] nm = "assert_ge" -> a >= b [] nm = "assert_eq" -> a = b [] nm = "assert_ne" -> a # b
+AssertGap(nm, a, b) == CASE nm = "assert_lt" -> b - a - 1 [] nm = "assert_le" -> b - a [] nm = "assert_gt" -> a - b - 1
+                          [] nm = "assert_ge" -> a - b [] OTHER -> 0
 Inv_FxpAssert ==
     (l >= 1 /\ ~Tr.ign /\ ~E.gfalse /\ E.op = "meth" /\ E.name \in {"assert_lt", "assert_le", "assert_gt", "assert_ge", "assert_eq", "assert_ne"}
         /\ Scalar2 /\ A1.k = "fxp" /\ Representable(A2.k, A2.v, A2.d, RES)) =>
-        ((E.out = "ok") <=> AssertRel(E.name, RA, RB))
+        \* accepted only if the relation holds; and accepted whenever it holds and the gap the gadget decomposes fits the bitlength
+        \* (x.assert_ge(y) decomposes x - y at the default width: a wider gap is outside the documented domain and is refused)
+        /\ (E.out = "ok" => AssertRel(E.name, RA, RB))
+        /\ ((AssertRel(E.name, RA, RB) /\ AssertGap(E.name, RA, RB) < 2 ^ Tr.bitlength) => E.out = "ok")
 
 \* unary operators and reading a value back
 Inv_FxpUn ==
